@@ -17,21 +17,29 @@ TRUSTED = [
 
 def run(ctx):
     ctx.trusted = TRUSTED
-    ok, detail = core.coq_build(ctx, ["theories/Props/C11.vo", "theories/Limits/Corr.vo", "theories/Limits/RemoteCorr.vo"])
+    ok, detail = core.coq_build(ctx, ["theories/Props/C11.vo", "theories/Limits/Corr.vo", "theories/Limits/RemoteCorr.vo", "theories/Limits/SessionCorr.vo"])
     ctx.oblige("coq build of Props/C11.vo and its dependencies", ok, detail)
     core.audit(ctx)
     if not ok:
         return
     core.check_theorems(ctx, "theories/Props/C11.v", "Props.C11")
     ov = core.write_overlay(ctx, {"internal/limits/zz_verif_c11_test.go": "harness/c11/c11_test.go",
-                                  "internal/target/remote/zz_verif_c11r_test.go": "harness/c11/c11_remote_test.go"},
-                            {"internal/limits": "limits", "internal/target/remote": "remote"})
+                                  "internal/target/remote/zz_verif_c11r_test.go": "harness/c11/c11_remote_test.go",
+                                  "internal/endpoint/smtp/zz_verif_c03_test.go": "harness/c03/c03_test.go"},
+                            {"internal/limits": "limits", "internal/target/remote": "remote", "internal/endpoint/smtp": "smtp"})
     core.generic_corr(ctx, overlay=ov, pkg="internal/limits", run="TestVerif_C11",
                       n=(400 if ctx.tier == "quick" else 15000), corr_module="Limits.Corr", clause_names=CLAUSES,
                       name="limits", shard=500)
     core.generic_corr(ctx, overlay=ov, pkg="internal/target/remote", run="TestVerif_C11Remote",
                       n=(60 if ctx.tier == "quick" else 1200), corr_module="Limits.RemoteCorr", clause_names=CLAUSES,
                       name="remote", shard=600)
+    # the endpoint's side of the permit lifetime: the sessions of the C03 harness (limits configured;
+    # transactions ended by DATA, RSET, QUIT, disconnect, a repeated EHLO, refusals at every stage, targets
+    # whose Start / AddRcpt / Body / Commit / Abort fail), looked at for leaked permits only
+    core.generic_corr(ctx, overlay=ov, pkg="internal/endpoint/smtp", run="TestVerif_C03",
+                      n=(250 if ctx.tier == "quick" else 4000), corr_module="Limits.SessionCorr",
+                      clause_names={6: "endpoint: a permit taken for a transaction (all / source IP / sender domain) was not returned by the end of the session"},
+                      name="endpoint", shard=125)
     st = ctx.stats.get("limits", {})
     def num(k):
         try:
